@@ -81,10 +81,11 @@ type grpcStream struct {
 	c    *SimClient
 	conn int
 	ctx  context.Context
+	in   chan *pbx.ClientMsg // this connection's inbound queue
 }
 
 func (s *grpcStream) Recv() (*pbx.ClientMsg, error) {
-	m, ok := simrt.RecvOk("client.grpc.recv", s.c.connIn(s.conn))
+	m, ok := simrt.RecvOk("client.grpc.recv", s.in)
 	if !ok {
 		return nil, io.EOF
 	}
@@ -119,10 +120,6 @@ func (s *grpcStream) SetTrailer(metadata.MD)       {}
 func (s *grpcStream) Context() context.Context     { return s.ctx }
 func (s *grpcStream) SendMsg(any) error            { return nil }
 func (s *grpcStream) RecvMsg(any) error            { return nil }
-
-func (c *SimClient) connIn(conn int) chan *pbx.ClientMsg {
-	return c.in
-}
 
 func (c *SimClient) deliver(msg *ServerComMessage) {
 	w := c.W
@@ -257,6 +254,7 @@ func newSimWorld(sched simrt.Schedule, disk *simdb.Disk) *simWorld {
 	curWorld = w
 	simStore.reset()
 	simCred.reset()
+	simLog.reset()
 	simBoot(disk)
 	return w
 }
@@ -296,7 +294,7 @@ func (c *SimClient) connect() {
 		return
 	}
 	ctx := peer.NewContext(context.Background(), &peer.Peer{Addr: &net.TCPAddr{IP: net.IPv4(10, 0, 0, byte(1+c.Idx)), Port: 1000 + c.Conn}})
-	st := &grpcStream{c: c, conn: c.Conn, ctx: ctx}
+	st := &grpcStream{c: c, conn: c.Conn, ctx: ctx, in: c.in}
 	srv := &grpcNodeServer{}
 	simrt.Go(fmt.Sprintf("client%d.MessageLoop", c.Idx), func() { srv.MessageLoop(st) })
 }
